@@ -166,7 +166,7 @@ def obligations(tier):
                     [("ci", "int"), ("oi", "int"), ("surplus", "bool"), ("mode", "int")] + VALS,
                     [f"0 <= ci < {nc}", f"0 <= oi < {no if thorough else min(no, 6)}", "0 <= mode <= 2"],
                     f"H.call({rid!r}, {out!r}, ci, oi, surplus, mode, {VARGS})",
-                    timeout=300,
+                    timeout=300 if not thorough else 1200,
                     bounds=f"{rid}: output {out}; every valid set of supplied names ({nc}: roots, interior cuts, mixed); listing orders; pipeline(...) / run(full_output) / func(); "
                     "optional surplus keyword; values unbounded",
                     canaries=("default_beats_kwarg_in_ternary_functions",) if (rid, out) == ("R5", "w") else (),
